@@ -546,3 +546,84 @@ package seccomp
 
 //@ lemma operationRoundTrip(o Operation, o2 Operation)   properties C14
 //@   ensures knownOp(o) && knownOp(o2) && tolower(o2) == tolower(o) ==> o2 == o
+
+// ---------------------------------------------------------------------------
+// Loader (seccomp_linux.go): ghost kernel / scheduler state, see spec/kernel.spec
+// ---------------------------------------------------------------------------
+//@ global cur ghost:Int
+//@ global anycur ghost:Int
+//@ global locked ghost:Bool
+//@ global nnp ghost:(Array Int Bool)
+//@ global att ghost:(Array Int Bool)
+//@ global priv ghost:Bool
+//@ global kwould ghost:Bool
+//@ global prctlOK ghost:Bool
+//@ global strict ghost:Bool
+//@ global nseccomp ghost:Int
+//@ global nprctl ghost:Int
+//@ global kop ghost:(_ BitVec 64)
+//@ global kflags ghost:(_ BitVec 64)
+//@ global ka3 ghost:(_ BitVec 64)
+
+//@ func sockFilter(raw []bpf.RawInstruction) []syscall.SockFilter   properties C08
+//@   ensures @len {C08} len(result) == len(raw) && own(result)
+//@   ensures @elems {C08} forall(i, 0, len(raw), result[i].Code == raw[i].Op && result[i].Jt == raw[i].Jt && result[i].Jf == raw[i].Jf && result[i].K == raw[i].K)
+//@   loop 1 binder k
+//@     invariant @len len(filter) == k && own(filter)
+//@     invariant @elems forall(i, 0, k, filter[i].Code == raw[i].Op && filter[i].Jt == raw[i].Jt && filter[i].Jf == raw[i].Jf && filter[i].K == raw[i].K)
+
+// R-sched: the goroutine may be moved to another OS thread before any system call unless it is locked to its thread
+//@ func seccomp(op uintptr, flags FilterFlag, uargs unsafe.Pointer) error   properties C09 C10
+//@   modifies ghost.att, ghost.nseccomp, ghost.kop, ghost.kflags, ghost.ka3, ghost.strict
+//@   ensures @one_call {C09 C10} ghost.nseccomp == old(ghost.nseccomp) + 1 && ghost.nprctl == old(ghost.nprctl) && ghost.nnp == old(ghost.nnp)
+//@   ensures @args {C10} ghost.kop == op && ghost.kflags == zext64(flags) && uptrOf(ghost.ka3) == uargs
+//@   ensures @attached {C09} op == 1 && result == nil ==> (ghost.nnp[ghost.cur] || ghost.priv) && ghost.att == ite(flags & 1 != 0, allThreads, store(old(ghost.att), ghost.cur, true))
+//@   ensures @refused {C09} op == 1 && result != nil ==> ghost.att == old(ghost.att)
+//@   ensures @accepted {C11} op == 1 && (ghost.nnp[ghost.cur] || ghost.priv) && ghost.kwould ==> result == nil
+//@   ensures @unprivileged {C11} op == 1 && !(ghost.nnp[ghost.cur] || ghost.priv) ==> result != nil
+//@   ensures @strict {C09} op == 0 && flags != 0 ==> result != nil && ghost.att == old(ghost.att) && ghost.strict == old(ghost.strict)
+//@   ensures @filter_frame op == 1 ==> ghost.strict == old(ghost.strict)
+
+//@ func prctl(option uintptr, args ...uintptr) error   properties C09 C11
+//@   modifies ghost.nnp, ghost.nprctl
+//@   ensures @toobig {C09} len(args) > 4 ==> result != nil && ghost.nprctl == old(ghost.nprctl) && ghost.nnp == old(ghost.nnp)
+//@   ensures @one_call {C11} len(args) <= 4 ==> ghost.nprctl == old(ghost.nprctl) + 1
+//@   ensures @nnp {C11} option == 38 && len(args) == 1 && args[0] == 1 && result == nil ==> ghost.nnp == store(old(ghost.nnp), ghost.cur, true)
+//@   ensures @nnp_ok {C11} option == 38 && len(args) == 1 && args[0] == 1 && ghost.prctlOK ==> result == nil
+//@   ensures @frame {C11} !(option == 38 && len(args) >= 1 && args[0] == 1 && result == nil) ==> ghost.nnp == old(ghost.nnp)
+//@   ensures @others ghost.nseccomp == old(ghost.nseccomp) && ghost.att == old(ghost.att)
+
+//@ func SetNoNewPrivs() error   properties C11
+//@   modifies ghost.nnp, ghost.nprctl
+//@   ensures @nnp {C11} result == nil ==> ghost.nnp == store(old(ghost.nnp), ghost.cur, true)
+//@   ensures @err {C11} result != nil ==> ghost.nnp == old(ghost.nnp)
+//@   ensures @ok {C11} ghost.prctlOK ==> result == nil
+//@   ensures @one_call ghost.nprctl == old(ghost.nprctl) + 1
+
+//@ func Supported() bool   properties C09
+//@   modifies ghost.att, ghost.nseccomp, ghost.kop, ghost.kflags, ghost.ka3, ghost.strict
+//@   ensures @no_state_change {C09} ghost.att == old(ghost.att) && ghost.strict == old(ghost.strict) && ghost.nnp == old(ghost.nnp) && ghost.nprctl == old(ghost.nprctl)
+//@   ensures @probe {C09} ghost.nseccomp == old(ghost.nseccomp) + 1 && ghost.kop == 0 && ghost.kflags != 0
+
+//@ func LoadFilter(filter Filter) error   properties C08 C09 C10 C11
+//@   opaque closed strictClosed subBlock retsActUpTo run polRel polDone groupMatchesN groupValidN
+//@   requires @api_groups forall(i, 0, len(filter.Policy.Syscalls), filter.Policy.Syscalls[i].arch == nil)
+//@   requires @fresh_filter ghost.att == noThreads
+//@   modifies ghost.att, ghost.nseccomp, ghost.kop, ghost.kflags, ghost.ka3, ghost.strict, ghost.nnp, ghost.nprctl, ghost.locked, ghost.cur, ghost.anycur
+// R-sched: before each system call the goroutine may have been moved to another OS thread, unless it is locked
+//@   ghost havoc ghost.anycur at before call SetNoNewPrivs#1
+//@   ghost ghost.cur = ite(ghost.locked, ghost.cur, ghost.anycur) at before call SetNoNewPrivs#1
+//@   ghost havoc ghost.anycur at before call seccomp#1
+//@   ghost ghost.cur = ite(ghost.locked, ghost.cur, ghost.anycur) at before call seccomp#1
+//@   assert @nnp_before_install {C11} filter.NoNewPrivs ==> ghost.nnp[ghost.cur] at before call seccomp#1
+//@   assert @handover {C08} nonnil(program) && program.Len == len(sockFilter) && len(sockFilter) == len(insts) && nonnil(program.Filter) && *program.Filter == sockFilter[0] && forall(i, 0, len(insts), exists(j, i, i + 1, encodes(insts[j], raw[j]) && sockFilter[j].Code == raw[j].Op && sockFilter[j].Jt == raw[j].Jt && sockFilter[j].Jf == raw[j].Jf && sockFilter[j].K == raw[j].K)) at before call seccomp#1
+//@   ensures @in_force {C09} result == nil ==> ghost.att[ghost.cur] && (filter.Flag & 1 != 0 ==> ghost.att == allThreads)
+//@   ensures @refused {C09} ghost.att != noThreads ==> result == nil
+//@   ensures @one_seccomp {C09 C10} result == nil ==> ghost.nseccomp == old(ghost.nseccomp) + 1 && ghost.kop == 1 && ghost.kflags == zext64(filter.Flag)
+//@   ensures @program_arg {C08} result == nil ==> nonnil(uptrTo(ghost.ka3, syscall.SockFprog))
+//@   ensures @no_tsync_others {C10} result == nil && filter.Flag & 1 == 0 ==> ghost.att == store(noThreads, ghost.cur, true)
+//@   ensures @nnp_iff {C11} !filter.NoNewPrivs ==> ghost.nnp == old(ghost.nnp) && ghost.nprctl == old(ghost.nprctl)
+//@   ensures @unprivileged_needs_nnp {C11} !filter.NoNewPrivs && !ghost.priv && !ghost.nnp[ghost.cur] ==> result != nil && ghost.att == noThreads
+//@   ensures @strict_untouched ghost.strict == old(ghost.strict)
+//@   ensures @early_failure {C09} ghost.nseccomp == old(ghost.nseccomp) ==> ghost.nnp == old(ghost.nnp) && ghost.att == noThreads && result != nil
+//@   ensures @assemble_first {C09} ghost.nprctl != old(ghost.nprctl) ==> ghost.nseccomp != old(ghost.nseccomp) || !ghost.prctlOK
